@@ -130,12 +130,13 @@ def run(tier, seed, t0):
             if impl != m:
                 raise C.Violation(PROP, "correspondence parse model vs Response::from_bytes fails (model stale; the implementation-side oracle found no crash)",
                                   "stream %s\ninput %s\nimplementation: %s\nmodel:          %s" % (stream, C.show_input(h), impl[:400], m[:400]), False)
+    fn_cases, fn_count = C.fn_correspondence(PROP, tier)   # every callable parser function on its own inputs, model vs code
     C.write_evidence(PROP, tier, seed, t0, obligations=proof["obligations"] + 1, discharged=proof["discharged"] + 1,
                      checker_cmd="tools/rs2coq /repo coq/gen && make -C coq Properties/C01.vo (coqc 8.16.1) + harness parse <6 streams> + harness crash (2 MiB thread, child process, debug+release) vs ocaml/driver parse",
                      evaluations=total + evals, distinct_nontrivial=distinct,
                      rule="search oracle (implementation only): every input of the streams valid / mutate (token-dictionary and byte mutations, splices, truncations, boundary numerals) / garbage / follow / stability / numeric must yield OK, INC or ERR (panics caught by catch_unwind); generated streams (with stray line ends, literal-final responses, malformed lines, truncations) through the real Framed<MockIo, ImapCodec> under whole / single-cut / pair / many-cut chunkings must not panic; the nesting sweep (depths 1..20000 at: nested multiparts, bare '(' runs, message/rfc822 chains, alternating multipart/message, body-extension lists, extension inside multiparts, and non-recursive list positions; BODYSTRUCTURE and BODY; plus the probes read off the translated grammar by coq/Synth.v: for every parser function that can call itself, a prefix reaching it followed by 40 / 1500 / 20000 repetitions of the bytes of one cycle) is parsed on a 2 MiB thread in a child process in debug and release builds and the child must survive. distinct_nontrivial = distinct inputs with an accept/reject verdict.",
                      samples=samples,
-                     extra=dict(theorems=proof["names"], correspondence_cases=evals),
+                     extra=dict(theorems=proof["names"], correspondence_cases=evals, per_function_cases=fn_cases, per_function_fns=fn_count),
                      assumptions=["partial: the theorem bounds the NUMBER of nested parser calls for all inputs (rank of parse_response, about 210); that this many Rust frames fit a 2 MiB stack is measured by the nesting sweep, not proved",
                                   "nom primitives/combinators and the natives are modelled and validated by the correspondence; std (from_utf8, from_str, eq_ignore_ascii_case) trusted as specified"])
     print("C01 ok: %d theorems; search %d inputs; correspondence %d cases" % (proof["obligations"], total, evals))
